@@ -623,6 +623,210 @@ func (t *T) m(d uint) uint { if d == 0 { return 0 }; t.n++; return t.m(d-1) }`, 
 		"a recursive function that writes into a parameter or assigns a field of its receiver is not supported"},
 	{"recursion, variable called fuel", `func f(fuel uint) uint { if fuel == 0 { return 0 }; return f(fuel-1) + 2 }`, "f", false, "clashes with the recursion parameter"},
 	{"recursion under ||", `func f(n uint) bool { return n == 0 || f(n-1) }`, "f", false, "evaluated conditionally"},
+	// stage 8.1: uint32, []uint32, named slice types, value receivers of a named slice type
+	{"uint32", `const hardened uint32 = 1 << 31
+func f(a uint32, b uint64) uint32 { if a >= hardened { return a &^ hardened | uint32(b) }; return a }`, "f", true,
+		"def f (a : BitVec 32) (b : BitVec 64) : BitVec 32 :=\n  if (BitVec.ule 2147483648#32 a) then\n    ((a &&& ~~~2147483648#32) ||| (BitVec.setWidth 32 b))"},
+	{"uint32 conversions", `func f(a uint32, b byte) uint64 { return uint64(a>>3) + uint64(uint32(b)) + uint64(byte(a)) }`, "f", true,
+		"(((BitVec.setWidth 64 (a >>> 3)) + (BitVec.setWidth 64 (BitVec.setWidth 32 b))) + (BitVec.setWidth 64 (BitVec.setWidth 8 a)))"},
+	{"uint32, comparison is unsigned", `func f(a, b uint32) bool { return a < b }`, "f", true, "(BitVec.ult a b)"},
+	{"uint32 mixed with uint64", `func f(a uint32, b uint64) uint64 { return a + b }`, "f", false, "mismatched types"},
+	{"uint32 converted to int8 via int16", `func f(a uint32) int16 { return int16(a) }`, "f", false, "outside the translated subset"},
+	{"uint32 from int8", `func f(a int8) uint32 { return uint32(a) }`, "f", false, "unsupported conversion"},
+	{"uint32 slice built by append, named slice type", `type Path []uint32
+func f(p Path, x uint32) Path { var r []uint32; for _, v := range p { r = append(r, v|x) }; if len(r) == 0 { return Path{} }; return r }`, "f", true,
+		"def f (p : List (BitVec 32)) (x : BitVec 32) : List (BitVec 32) :=\n  let r : List (BitVec 32) := ([] : List (BitVec 32))\n  let r : List (BitVec 32) := List.foldl (fun (r : List (BitVec 32)) (v : BitVec 32) =>\n      (r ++ [(v ||| x)])) r p"},
+	{"uint32 slice, checked index", `func f(xs []uint32, i int) uint32 { return xs[i] }`, "f", true, "Go.Flow.done (xs.getD i.toNat 0#32))"},
+	{"named slice type returned as such", `type Path []uint32
+func f(p Path) Path { return p }`, "f", false, "would alias a parameter"},
+	{"value receiver of a named slice type", `type Path []uint32
+func (p Path) Sum() uint32 { var s uint32; for _, v := range p { s += v }; return s }`, "Path.Sum", true,
+		"the receiver `p` (a value of a named slice type) is the first parameter -/\ndef Path_Sum (p : List (BitVec 32)) : BitVec 32 :="},
+	{"value receiver written into", `type Path []uint32
+func (p Path) Set() int { p[0] = 1; return 0 }`, "Path.Set", false, "not a local slice created once by make"},
+	{"value receiver returned", `type Path []uint32
+func (p Path) Ret() Path { return p }`, "Path.Ret", false, "would alias a parameter"},
+	{"method with a slice receiver called", `type Path []uint32
+func (p Path) Len() int { return len(p) }
+func f(p Path) int { return p.Len() }`, "Path.Len,f", false, "a method call is only supported on the pointer receiver"},
+	{"method with a slice receiver called on a package variable", `type Path []uint32
+func (p Path) Len() int { return len(p) }
+var P = Path{1}
+func f() int { return P.Len() }`, "Path.Len,f", false, "which has a value receiver of a slice type: not supported"},
+	{"recursive method with a slice receiver", `type Path []uint32
+func (p Path) Rec(n uint) int { if n == 0 { return 0 }; return p.Rec(n-1) }`, "Path.Rec", false, "a recursive method with a value receiver of a slice type is not supported"},
+	{"value receiver of a struct type", `type T struct { a uint32 }
+func (c T) m() uint32 { return c.a }`, "T.m", false, "must be `c *T`"},
+	// stage 8.2: []string as the read-only result of a library call
+	{"string slice: len, index, range with key and value", `import "strings"
+func f(s string) int { m := strings.Split(s, "/"); n := len(m[0]); for i, key := range m { if key == m[i] { n += i } }; return n + len(m) }`, "f", true,
+		"let m : List (List (BitVec 8)) := (Go.splitByte s 47#8)\n  if !(decide (0 < m.length)) then Go.Flow.panic else\n  let n : BitVec 64 := (BitVec.ofNat 64 (m.getD 0 ([] : List (BitVec 8))).length)\n  let n : BitVec 64 := List.foldl (fun (n : BitVec 64) (rk_1 : BitVec 64 × List (BitVec 8)) =>\n      let i : BitVec 64 := rk_1.1\n      let key : List (BitVec 8) := rk_1.2\n      (if (key == (m.getD i.toNat ([] : List (BitVec 8)))) then (n + i) else n)) n (Go.indexed m)"},
+	{"string slice: variable index", `import "strings"
+func f(s string, j int) string { m := strings.Split(s, ","); return m[j] }`, "f", true,
+		"if !(Go.inRangeS j m.length) then Go.Flow.panic else\n  Go.Flow.done (m.getD j.toNat ([] : List (BitVec 8))))"},
+	{"string slice: comparison of an element", `import "strings"
+func f(s, key string) bool { m := strings.Split(s, "/"); return len(m) < 2 || m[0] != key }`, "f", true,
+		"if !((BitVec.slt (BitVec.ofNat 64 m.length) 2#64) || (decide (0 < m.length))) then Go.Flow.panic else\n  Go.Flow.done ((BitVec.slt (BitVec.ofNat 64 m.length) 2#64) || ((m.getD 0 ([] : List (BitVec 8))) != key)))"},
+	{"string slice: ranged over directly", `import "strings"
+func f(s string) int { n := 0; for _, k := range strings.Split(s, ",") { n += len(k) }; for i := range strings.Split(s, ";") { n += i }; return n }`, "f", true,
+		"(n + (BitVec.ofNat 64 k.length))) n (Go.splitByte s 44#8)\n  List.foldl (fun (n : BitVec 64) (i : BitVec 64) =>\n      (n + i)) n ((List.range (Go.splitByte s 59#8).length).map (BitVec.ofNat 64))"},
+	{"string slice: return in a loop with key and value", `import "strings"
+func f(s string) int { for i, key := range strings.Split(s, "/") { if key == "" { return i } }; return -1 }`, "f", true,
+		"Go.Flow.bind (Go.forIn (Go.indexed (Go.splitByte s 47#8)) () (fun (_ : Unit) (rk_1 : BitVec 64 × List (BitVec 8)) =>\n      let i : BitVec 64 := rk_1.1\n      let key : List (BitVec 8) := rk_1.2"},
+	{"string slice as a result", `import "strings"
+func f(s string) []string { return strings.Split(s, "/") }`, "f", false, "a result of type []string is not supported"},
+	{"string slice as a parameter", `func f(m []string) int { return len(m) }`, "f", false, "a parameter of type []string is not supported"},
+	{"string slice written", `import "strings"
+func f(s string) int { m := strings.Split(s, "/"); m[0] = "x"; return len(m) }`, "f", false, "index assignment to a []string: such slices are read-only"},
+	{"string slice appended to", `import "strings"
+func f(s string) int { m := strings.Split(s, "/"); m = append(m, "x"); return len(m) }`, "f", false, "append to List (List (BitVec 8))"},
+	{"string slice copied", `import "strings"
+func f(s string) int { m := strings.Split(s, "/"); k := m; return len(k) }`, "f", false, "would alias"},
+	{"string slice sliced", `import "strings"
+func f(s string) int { m := strings.Split(s, "/"); return len(m[1:]) }`, "f", false, "unsupported expression"},
+	{"string slice cut", `import "strings"
+func f(s string) int { m := strings.Split(s, "/"); m = m[:1]; return len(m) }`, "f", false, "reslicing a variable of type []string is not supported"},
+	{"string slice declared", `func f(s string) int { var m []string; return len(m) }`, "f", false, "a variable without an initial value of type []string is not supported"},
+	{"string slice literal", `func f(s string) int { m := []string{s}; return len(m) }`, "f", false, "unsupported composite literal"},
+	{"byte of an element of a string slice", `import "strings"
+func f(s string) byte { m := strings.Split(s, "/"); return m[0][0] }`, "f", false, "only T[i][j] on a package-level array of arrays"},
+	{"range with key and value, range variable assigned", `import "strings"
+func f(s string) int { n := 0; for i, key := range strings.Split(s, "/") { key = s; n += i + len(key) }; return n }`, "f", false, "the loop body assigns the range variable key"},
+	{"range with key and value over bytes", `func f(xs []byte) int { n := 0; for i, v := range xs { n += i + int(v) }; return n }`, "f", false, "range with both key and value is not supported"},
+	// stage 8.3: library functions defined in GoBits.lean
+	{"strings.TrimPrefix, assigned to a string parameter", `import "strings"
+func f(s, p string) string { if s == "" || s == "m" { return p }; s = strings.TrimPrefix(s, "m/"); return strings.TrimPrefix(s, p) }`, "f", true,
+		"if ((s == ([] : List (BitVec 8))) || (s == ([109#8] : List (BitVec 8)))) then\n    p\n  else\n    let s : List (BitVec 8) := (Go.trimPrefix s ([109#8, 47#8] : List (BitVec 8)))\n    (Go.trimPrefix s p)"},
+	{"strings.TrimSuffix", `import "strings"
+func f(s string) string { return strings.TrimSuffix(s, "m/") }`, "f", false, "unsupported call"},
+	{"strings.TrimPrefix of bytes", `import "strings"
+func f(s string, b byte) string { return strings.TrimPrefix(s, b) }`, "f", false, "cannot use b"},
+	{"strings.Split, variable separator", `import "strings"
+func f(s, sep string) int { return len(strings.Split(s, sep)) }`, "f", false, "only supported with a constant separator that is a single byte"},
+	{"strings.Split, two-byte separator", `import "strings"
+func f(s string) int { return len(strings.Split(s, "ab")) }`, "f", false, "only supported with a constant separator that is a single byte"},
+	{"strings.Split, empty separator", `import "strings"
+func f(s string) int { return len(strings.Split(s, "")) }`, "f", false, "only supported with a constant separator that is a single byte"},
+	{"strings.Split, non-ASCII separator", `import "strings"
+func f(s string) int { return len(strings.Split(s, "é")) }`, "f", false, "only supported with a constant separator that is a single byte"},
+	{"fmt.Sprintf %d", `import ("fmt"; "strings")
+func f(a uint32, b byte, c uint64, d uint) string { var sb strings.Builder; sb.WriteString(fmt.Sprintf("/%d", a&^3)); sb.WriteString(fmt.Sprintf("%d%%", b)); sb.WriteString(fmt.Sprintf("<%d>", c+uint64(d))); return sb.String() }`, "f", true,
+		"let sb : List (BitVec 8) := (sb ++ (([47#8] : List (BitVec 8)) ++ Go.decimal (a &&& ~~~3#32).toNat))\n  let sb : List (BitVec 8) := (sb ++ (Go.decimal b.toNat ++ ([37#8] : List (BitVec 8))))\n  (sb ++ (([60#8] : List (BitVec 8)) ++ Go.decimal (c + d).toNat ++ ([62#8] : List (BitVec 8))))"},
+	{"fmt.Sprintf %d alone", `import "fmt"
+func f(d uint) string { return fmt.Sprintf("%d", d) }`, "f", true, "(Go.decimal d.toNat)"},
+	{"fmt.Sprintf of a signed integer", `import "fmt"
+func f(a int) string { return fmt.Sprintf("%d", a) }`, "f", false, "(the argument has type int)"},
+	{"fmt.Sprintf of a constant", `import "fmt"
+func f() string { return fmt.Sprintf("%d", 5) }`, "f", false, "(the argument has type int)"},
+	{"fmt.Sprintf of a named type", `import "fmt"
+type U uint32
+func f(a U) string { return fmt.Sprintf("%d", a) }`, "f", false, "which could implement fmt.Formatter"},
+	{"fmt.Sprintf %x", `import "fmt"
+func f(a uint32) string { return fmt.Sprintf("%x", a) }`, "f", false, "unsupported verb in \"%x\""},
+	{"fmt.Sprintf with a width", `import "fmt"
+func f(a uint32) string { return fmt.Sprintf("%05d", a) }`, "f", false, "unsupported verb in \"%05d\""},
+	{"fmt.Sprintf with two verbs", `import "fmt"
+func f(a uint32) string { return fmt.Sprintf("%d %d", a, a) }`, "f", false, "fmt.Sprintf is only supported as fmt.Sprintf(f, x)"},
+	{"fmt.Sprintf without a verb", `import "fmt"
+func f(a uint32) string { return fmt.Sprintf("abc", a) }`, "f", false, "no verb in \"abc\""},
+	{"fmt.Sprintf with a variable format", `import "fmt"
+func f(a uint32, s string) string { return fmt.Sprintf(s, a) }`, "f", false, "fmt.Sprintf is only supported as fmt.Sprintf(f, x)"},
+	// stage 8.4: library functions as parameters: several results, methods of package-level variables
+	{"strconv.ParseUint as a parameter", `import "strconv"
+func g(s string) (uint32, error) { n, err := strconv.ParseUint(s, 10, 31); if err != nil { return 0, err }; return uint32(n), nil }
+func f(s string) (uint32, error) { v, err := g(s); if err != nil { return 1, err }; return v + 1, nil }`, "g,f", true,
+		"def g (strconv_ParseUint : List (BitVec 8) → BitVec 64 → BitVec 64 → (BitVec 64 × Option String)) (s : List (BitVec 8)) : BitVec 32 × Option String :=\n  let st_1 : BitVec 64 × Option String := (strconv_ParseUint s 10#64 31#64)\n  let n : BitVec 64 := st_1.1\n  let err : Option String := st_1.2\n  if (err).isSome then\n    (0#32, err)\n  else\n    ((BitVec.setWidth 32 n), (none : Option String))"},
+	{"strconv.ParseUint, passed on by the caller", `import "strconv"
+func g(s string) (uint32, error) { n, err := strconv.ParseUint(s, 10, 31); if err != nil { return 0, err }; return uint32(n), nil }
+func f(s string) (uint32, error) { v, err := g(s); if err != nil { return 1, err }; return v + 1, nil }`, "g,f", true,
+		"def f (strconv_ParseUint : List (BitVec 8) → BitVec 64 → BitVec 64 → (BitVec 64 × Option String)) (s : List (BitVec 8)) : BitVec 32 × Option String :=\n  let st_1 : BitVec 32 × Option String := (g strconv_ParseUint s)"},
+	{"strconv.ParseUint, variable base, error ignored", `import "strconv"
+func f(s string, b int) uint64 { n, _ := strconv.ParseUint(s, b, 64); return n }`, "f", true, "let st_1 : BitVec 64 × Option String := (strconv_ParseUint s b 64#64)\n  st_1.1"},
+	{"strconv.ParseUint in a function with positioned errors", `import ("strconv"; "errors")
+var ErrX = errors.New("x")
+type E struct { err error; Off int }
+func (e *E) Error() string { return "e" }
+func f(s string) (uint64, error) { n, err := strconv.ParseUint(s, 10, 64); if err != nil { return 0, err }; if n == 0 { return 0, &E{ErrX, 1} }; return n, nil }`, "f", true,
+		"let err : Option (String × Option (BitVec 64)) := (Go.errOfPlain st_1.2)"},
+	{"strconv.ParseUint returned directly", `import "strconv"
+func f(s string) (uint64, error) { return strconv.ParseUint(s, 10, 64) }`, "f", false, "return arity"},
+	{"strconv.ParseUint with a byte base", `import "strconv"
+func f(s string, b byte) uint64 { n, _ := strconv.ParseUint(s, int(b), 64); return n }`, "f", true, "(strconv_ParseUint s (BitVec.setWidth 64 b) 64#64)"},
+	{"strconv.Atoi", `import "strconv"
+func f(s string) int { n, err := strconv.Atoi(s); if err != nil { return 0 }; return n }`, "f", false, "unsupported call"},
+	{"method of a package-level regexp", `import "regexp"
+var re = regexp.MustCompile("a+")
+func f(s string) int { m := re.FindStringSubmatch(s); if len(m) == 0 { return 0 }; return len(m[0]) }`, "f", true,
+		"def f (re_FindStringSubmatch : List (BitVec 8) → List (List (BitVec 8))) (s : List (BitVec 8)) : Option (BitVec 64) :=\n  Go.Flow.result (\n  let m : List (List (BitVec 8)) := (re_FindStringSubmatch s)"},
+	{"method of a package-level regexp, doc comment", `import "regexp"
+var re = regexp.MustCompile("a+")
+func f(s string) int { return len(re.FindStringSubmatch(s)) }`, "f", true,
+		"PARAMETER re_FindStringSubmatch: the method FindStringSubmatch of the package-level variable `re` (a *regexp.Regexp initialised by regexp.MustCompile and never assigned)"},
+	{"package-level regexp reassigned", `import "regexp"
+var re = regexp.MustCompile("a+")
+func g() { re = nil }
+func f(s string) int { return len(re.FindStringSubmatch(s)) }`, "f", false, "used other than as the receiver of a method call"},
+	{"package-level regexp without initialiser", `import "regexp"
+var re *regexp.Regexp
+func f(s string) int { return len(re.FindStringSubmatch(s)) }`, "f", false, "(the variable re is not initialised that way)"},
+	{"package-level regexp from a variable pattern", `import "regexp"
+var pat = "a+"
+var re = regexp.MustCompile(pat)
+func f(s string) int { return len(re.FindStringSubmatch(s)) }`, "f", false, "(the variable re is initialised with a non-constant argument)"},
+	{"package-level regexp made by another constructor", `import "regexp"
+var re = regexp.MustCompilePOSIX("a+")
+func f(s string) int { return len(re.FindStringSubmatch(s)) }`, "f", false, "(the variable re is not initialised that way)"},
+	{"package-level regexp modified by another method", `import "regexp"
+var re = regexp.MustCompile("a+")
+func g() { re.Longest() }
+func f(s string) int { return len(re.FindStringSubmatch(s)) }`, "f", false, "it is not known to leave the variable unchanged"},
+	{"regexp parameter", `import "regexp"
+func f(re *regexp.Regexp, s string) int { return len(re.FindStringSubmatch(s)) }`, "f", false, "outside the translated subset"},
+	{"local regexp", `import "regexp"
+func f(s string) int { re := regexp.MustCompile("a+"); return len(re.FindStringSubmatch(s)) }`, "f", false, "outside the translated subset"},
+	{"another method of a regexp", `import "regexp"
+var re = regexp.MustCompile("a+")
+func f(s string) bool { return re.MatchString(s) }`, "f", false, "(a method of a library type)"},
+	{"variable called like the parameter for a method", `import "regexp"
+var re = regexp.MustCompile("a+")
+func f(s string, re_FindStringSubmatch int) int { return len(re.FindStringSubmatch(s)) + re_FindStringSubmatch }`, "f", false, "clashes with the parameter that stands for re.FindStringSubmatch"},
+	{"variable called like a Lean keyword", `func f(matches int) int { matches++; return matches }`, "f", true, "def f (matches_2 : BitVec 64) : BitVec 64 :=\n  (matches_2 + 1#64)"},
+	// stage 8.5: fmt.Errorf with %w of a local error variable
+	{"Errorf wrapping a local error", `import ("fmt"; "strconv")
+func f(s string) (uint64, error) { n, err := strconv.ParseUint(s, 10, 64); if err != nil { return 0, fmt.Errorf("bad %q: %w", s, err) }; return n, nil }`, "f", true,
+		"if (err).isSome then\n    (0#64, (Go.errWrap err))"},
+	{"Errorf wrapping a local error in a function with positioned errors", `import ("fmt"; "strconv"; "errors")
+var ErrX = errors.New("x")
+type E struct { err error; Off int }
+func (e *E) Error() string { return "e" }
+func f(s string) (uint64, error) { n, err := strconv.ParseUint(s, 10, 64); if err != nil { return 0, fmt.Errorf("bad: %w", err) }; if n == 0 { return 0, &E{ErrX, 1} }; return n, nil }`, "f", false,
+		"only supported in a function whose errors are all plain"},
+	{"Errorf wrapping a string", `import "fmt"
+func f(s string) error { return fmt.Errorf("bad: %w", s) }`, "f", false, "must be a package-level error variable or a local error variable"},
+	{"Errorf wrapping a new error", `import ("fmt"; "errors")
+func f(s string) error { return fmt.Errorf("bad: %w", errors.New(s)) }`, "f", false, "must be a package-level error variable or a local error variable"},
+	// stage 8.6: the three functions of pkg/bip32path together
+	{"bip32path", `import ("errors"; "fmt"; "regexp"; "strconv"; "strings")
+var ErrInvalidPathFormat = errors.New("invalid path format")
+const hardened uint32 = 1 << 31
+var keyReg = regexp.MustCompile("(\\d+)([H']?)")
+type Path []uint32
+func parseUint31(s string) (uint32, error) { n, err := strconv.ParseUint(s, 10, 31); if err != nil { return 0, err }; return uint32(n), nil }
+func ParsePath(s string) (Path, error) {
+	if s == "" || s == "m" { return Path{}, nil }
+	s = strings.TrimPrefix(s, "m/")
+	var path []uint32
+	for i, key := range strings.Split(s, "/") {
+		matches := keyReg.FindStringSubmatch(key)
+		if len(matches) < 2 || matches[0] != key { return nil, fmt.Errorf("invalid key %d: %w", i, ErrInvalidPathFormat) }
+		v, err := parseUint31(matches[1])
+		if err != nil { return nil, fmt.Errorf("invalid key %d: %w", i, err) }
+		if len(matches) > 2 && len(matches[2]) > 0 { v |= hardened }
+		path = append(path, v)
+	}
+	return path, nil
+}`, "parseUint31,ParsePath", true,
+		"def ParsePath (keyReg_FindStringSubmatch : List (BitVec 8) → List (List (BitVec 8))) (strconv_ParseUint : List (BitVec 8) → BitVec 64 → BitVec 64 → (BitVec 64 × Option String)) (s : List (BitVec 8)) : Option (List (BitVec 32) × Option String) :="},
 }
 
 func TestLoopTranslator(t *testing.T) {
